@@ -233,22 +233,24 @@ func c01Slots(c *core.Ctx) {
 		okSame := false
 		var spfVar *types.Var
 		for _, cs := range chk.CallsTo("abft.Store.AddRoot") {
-			spfVar = canonVar(chk, varOf(chk, cs.Call.Args[0]))
-		}
-		if spfVar != nil {
-			for _, rp := range chk.ReturnPoints() {
-				r := rp.Node().(*ast.ReturnStmt)
-				if len(r.Results) == 2 && canonVar(chk, varOf(chk, r.Results[1])) == spfVar {
-					okSame = true
-				}
+			if len(cs.Call.Args) >= 1 {
+				spfVar = canonVar(chk, varOf(chk, cs.Call.Args[0]))
 			}
 		}
-		if okSame {
-			okSame = false
+		// the result that carries the frame is identified by its role — the result position through
+		// which checkAndSaveEvent hands out the variable it registered with — not by a fixed index, so
+		// the order of the (frame, error) results is free
+		for _, i := range c01ResultsReturning(chk, spfVar) {
 			for _, cs := range proc.CallsTo("abft.Orderer.handleElection") {
+				if len(cs.Call.Args) < 1 {
+					continue
+				}
 				v := canonVar(proc, varOf(proc, cs.Call.Args[0]))
+				if v == nil {
+					continue
+				}
 				for _, call := range proc.CallsTo("abft.Orderer.checkAndSaveEvent") {
-					if w := c01ResultVar(proc, call.Call, 1); w != nil && canonVar(proc, w) == v {
+					if w := c01ResultVar(proc, call.Call, i); w != nil && canonVar(proc, w) == v {
 						okSame = true
 					}
 				}
